@@ -338,12 +338,16 @@ RecvAckErr(a, p, f) ==
 RecvData(a, p, f) ==
   LET t == f.tun
       kr == K("relay", f.kind, p, f.sid)
-      upHit == Has(rup[a], kr) /\ (Get(rup[a], kr).upeer = p \/ "DevDataNoPeerCheck" \in Dev)
+      \* DevDataNoPeerCheck: the upstream index is consulted by id alone and the peer is not compared
+      upSet == IF "DevDataNoPeerCheck" \in Dev
+               THEN {r \in rup[a] : r.v.kind = f.kind /\ r.v.usid = f.sid}
+               ELSE {r \in rup[a] : r.k = kr /\ r.v.upeer = p}
+      upHit == upSet # {}
       dnHit == Has(rdn[a], kr) /\ Get(rdn[a], kr).dpeer = p
       kx == K("exit", f.kind, p, f.sid)
       ki == K("ingress", f.kind, p, f.sid) IN
   IF upHit \/ dnHit
-  THEN LET e == IF upHit THEN Get(rup[a], kr) ELSE Get(rdn[a], kr)
+  THEN LET e == IF upHit THEN (CHOOSE r \in upSet : TRUE).v ELSE Get(rdn[a], kr)
            to == IF upHit THEN e.dpeer ELSE e.upeer
            sid == IF upHit THEN e.dsid ELSE e.usid IN
        /\ net' = SendAll(Tail_(net, p, a), << <<a, to, Frame("DATA", f.kind, sid, t, f.src, f.n)>> >>)
@@ -462,6 +466,11 @@ Spec == Init /\ [][Next]_vars
 \* C16: at every hop the table entry selected belongs to the frame's tunnel, no insert or delete touches
 \* another tunnel's slot, nothing meant for a waiting endpoint is dropped
 Isolation == viol = {}
+
+\* finer views of Isolation (used to obtain counterexamples of a particular kind)
+NoStarve   == viol \cap {"starve", "lostclose"} = {}
+NoMisroute == viol \cap {"misroute:ingress", "misroute:relay", "misroute:exit"} = {}
+NoClobber  == viol \cap {"clobber:ingress", "clobber:relay", "clobber:exit"} = {}
 
 IsPrefixOf(s, n, t) == Len(s) <= n /\ \A i \in 1..Len(s) : s[i] = <<t, i>>
 \* C16: each endpoint receives exactly the bytes of its own counterpart, in order
